@@ -133,6 +133,18 @@ func (p *Pool) Close() {
 
 // try sends one request; died=true when the worker crashed or timed out (it is then discarded)
 func (p *Pool) try(rq workerReq) (rec map[string]any, died bool, why string, err error) {
+	rec, died, why, err = p.tryOnce(rq, 0)
+	if died && strings.HasPrefix(why, "timeout") {
+		// a loaded machine can starve the worker: only a second, much longer wait makes it a hang
+		if p.Count != nil {
+			p.Count("worker-timeout-retried")
+		}
+		rec, died, why, err = p.tryOnce(rq, 90*time.Second)
+	}
+	return
+}
+
+func (p *Pool) tryOnce(rq workerReq, to time.Duration) (rec map[string]any, died bool, why string, err error) {
 	if p.w == nil {
 		p.w, err = startWorker()
 		if err != nil {
@@ -146,9 +158,11 @@ func (p *Pool) try(rq workerReq) (rec map[string]any, died bool, why string, err
 		p.Close()
 		return nil, true, why, nil
 	}
-	to := p.Timeout
 	if to == 0 {
-		to = 8 * time.Second
+		to = p.Timeout
+	}
+	if to == 0 {
+		to = 15 * time.Second
 	}
 	select {
 	case line, ok := <-p.w.lines:
